@@ -11,6 +11,7 @@ import (
 
 	"google.golang.org/grpc/codes"
 	"google.golang.org/grpc/status"
+	"google.golang.org/protobuf/proto"
 	"k8s.io/apimachinery/pkg/apis/meta/v1/unstructured"
 	"k8s.io/apimachinery/pkg/types"
 	"sigs.k8s.io/controller-runtime/pkg/reconcile"
@@ -54,9 +55,9 @@ func composedKind(k simapi.ObjKey) bool {
 func (prop) Run(t *testing.T, s *sim.Sim, res *runner.Result) {
 	var fn *simfn.Transport
 	xrworld.Run(s, res, xrworld.Hooks{
-		Opts:   func(t *sim.Tape) xrworld.Opts { return xrworld.Opts{FnFaults: true} },
+		Opts:   func(t *sim.Tape) xrworld.Opts { return xrworld.Opts{FnFaults: true, LagComposed: t.Next(2) == 1} },
 		Params: xrworld.DrawParams{Fatal: true, Requirements: true},
-		Faults: []sim.Outcome{sim.ErrBefore, sim.ErrAfter, sim.Conflict},
+		Faults: []sim.Outcome{sim.ErrBefore, sim.ErrAfter, sim.Conflict, sim.Stale},
 		Setup: func(w *xrworld.W, wl *xrworld.Workload) error {
 			ctx := context.Background()
 			for i, n := range []string{"e0", "e1", "e2"} {
@@ -65,6 +66,13 @@ func (prop) Run(t *testing.T, s *sim.Sim, res *runner.Result) {
 				if i < 2 {
 					_ = unstructured.SetNestedField(u.Object, fmt.Sprintf("e%d", i+1), "spec", "next")
 				}
+				if err := w.Direct.Create(ctx, u); err != nil {
+					return err
+				}
+			}
+			for i := 1; i <= 7; i++ {
+				u := &unstructured.Unstructured{Object: map[string]any{"apiVersion": "things.example.org/v1", "kind": "Extra",
+					"metadata": map[string]any{"name": fmt.Sprintf("page%d", i), "labels": map[string]any{"page": fmt.Sprint(i)}}, "spec": map[string]any{"page": int64(i)}}}
 				if err := w.Direct.Create(ctx, u); err != nil {
 					return err
 				}
@@ -119,6 +127,8 @@ func judge(w *xrworld.W, fn *simfn.Transport, key types.NamespacedName, t *sim.T
 	// ---- what did the pipeline do?
 	failure := ""
 	perStep := map[string]int{}
+	byStep := map[string][]*simfn.Call{}
+	var stepOrder []string
 	var last *simfn.Call
 	for _, c := range calls {
 		if c.Err != nil {
@@ -130,6 +140,10 @@ func judge(w *xrworld.W, fn *simfn.Transport, key types.NamespacedName, t *sim.T
 		}
 		step, _ := c.Req.GetInput().AsMap()["step"].(string)
 		perStep[step]++
+		if len(byStep[step]) == 0 {
+			stepOrder = append(stepOrder, step)
+		}
+		byStep[step] = append(byStep[step], c)
 		for _, r := range c.Rsp.GetResults() {
 			if r.GetSeverity() == fnv1.Severity_SEVERITY_FATAL {
 				failure = "fatal-result"
@@ -143,6 +157,28 @@ func judge(w *xrworld.W, fn *simfn.Transport, key types.NamespacedName, t *sim.T
 		}
 		if n == 6 && failure == "" {
 			failure = "requirements-never-stabilised"
+		}
+	}
+	// requirement stabilisation, judged on the recorded responses: a step's run
+	// ends successfully only when its last two responses carry equal
+	// requirements (or its only response carries none).
+	for i, step := range stepOrder {
+		cs := byStep[step]
+		n := len(cs)
+		stable := (n == 1 && len(cs[0].Rsp.GetRequirements().GetExtraResources()) == 0) ||
+			(n >= 2 && proto.Equal(cs[n-1].Rsp.GetRequirements(), cs[n-2].Rsp.GetRequirements()))
+		fatal := false
+		for _, r := range cs[n-1].Rsp.GetResults() {
+			fatal = fatal || r.GetSeverity() == fnv1.Severity_SEVERITY_FATAL
+		}
+		if stable || fatal {
+			continue
+		}
+		if failure == "" {
+			failure = "requirements-never-stabilised"
+		}
+		if i < len(stepOrder)-1 {
+			w.S.Violate("C03/unstable-requirements-accepted", fmt.Sprintf("reconcile %s: step %s was left after %d call(s) although its requirements had not stopped changing, and the pipeline went on", t.Label, step, n))
 		}
 	}
 	for _, e := range mine {
